@@ -181,7 +181,7 @@ func c07Contract(ctx *Ctx, i int, drv int, rng *rand.Rand) {
 		if pay.WithdrawMin != nil {
 			min = "(Some " + cBig(pay.WithdrawMin) + ")"
 		}
-		coq = fmt.Sprintf("C7Contract {| cc_cfg := {| dc_fee := %s; dc_min := %s; dc_refresh_on_settle := true |}; cc_ops := %s; cc_received := %s; cc_left_chain := %s; cc_left_credit := %s |}",
+		coq = fmt.Sprintf("C7Contract {| cc_cfg := {| dc_fee := %s; dc_min := %s; dc_refresh_on_settle := true; dc_when_full := FPStore |}; cc_ops := %s; cc_received := %s; cc_left_chain := %s; cc_left_credit := %s |}",
 			cBig(fee), min, cList(ops), cBig(received), cBig(onAfter.Balance), cBig(&ledAfter.Credit))
 	}
 	ctx.Emit(Case{I: i, Kind: "contract-" + driverNames[drv], Coq: coq, Desc: d, Monitor: mon})
